@@ -5,7 +5,7 @@
   Proofs/ConfRoundtrip.lean.
 
   All four main theorems are at full strength (no `_partial`): they hold for the code
-  after the two `fix:` commits (7587463 backslash before the NUL, e0884f0 stray `}`); the
+  after the two `fix:` commits (7587463 backslash before the NUL, 0496ec2 stray `}`); the
   two `…_before_fix` theorems are the counterexamples against the code as it was.
 -/
 import Ctrmml.Proofs.ConfRoundtrip
